@@ -12,6 +12,7 @@ OUT = os.path.join(ROOT, "out")
 EVID = os.path.join(ROOT, "evidence")
 GUARD_CFG = "vls_verif"
 NCPU = os.cpu_count() or 4
+COQC_TIMEOUT = int(os.environ.get("VERIF_COQC_TIMEOUT", "1200"))
 
 FORBIDDEN = re.compile(
     r"\b(Admitted|admit|Axiom|Axioms|Parameter|Parameters|Conjecture|Conjectures)\b"
@@ -135,7 +136,7 @@ def coq_files():
     return [os.path.relpath(f, COQ) for f in fs]
 
 
-def build_coq(targets=None, timeout=3000, pre=None):
+def build_coq(targets=None, timeout=3000, pre=None, keep_going=False):
     """Full .vo build (no -vos) of the requested targets and everything they depend on.
     `pre`: optional callable run under the same lock before the build (a translator that
     regenerates a .v file, e.g. tools/gen_wire.py for C19)."""
@@ -151,7 +152,9 @@ def build_coq(targets=None, timeout=3000, pre=None):
             open(stamp, "w").write(listing)
         tg = targets or []
         t = time.time()
-        rc, out = sh(["make", "-j%d" % NCPU] + tg, cwd=COQ, timeout=timeout)
+        # every coqc invocation is bounded, so that one diverging tactic cannot hold the build lock
+        rc, out = sh(["make", "-j%d" % NCPU, "COQC=timeout %d coqc" % COQC_TIMEOUT] + (["-k"] if keep_going else []) + tg,
+                     cwd=COQ, timeout=timeout)
         log("[coq build %s: rc=%d in %.1fs]" % (" ".join(tg) or "all", rc, time.time() - t))
         return rc == 0, out
 
